@@ -140,9 +140,9 @@ Proof.
   intros H. destruct (Properties.C01.C01_run_total start data H) as (ms & st & rest & E & _).
   exists ms, st, rest. exact E.
 Qed.
-(* C02: re-serialising a message that came out of a parser never overflows the u16 length *)
+(* C02: re-serialising a message that came out of a parser neither panics nor hits the length error (WOk) *)
 Theorem C03_reexport_write_no_panic (m : Dlt.Frame.msg) :
-  Properties.C02.parsed m -> exists bytes, Dlt.Write.msg_to_write m = Ok bytes.
+  Properties.C02.parsed m -> exists bytes, Dlt.Write.msg_to_write m = Ok (Dlt.Write.WOk bytes).
 Proof. exact (Properties.C02.C02_write_ok m). Qed.
 (* C18: argument iteration over ARBITRARY payload bytes terminates without panic, every raw slice in bounds *)
 Theorem C03_reexport_args_in_bounds (verbose be : bool) (p : Dlt.Args.bytes) :
